@@ -51,7 +51,7 @@ Section Classes2.
         cbv in Hty; inversion Hty; subst ty; close_tests; cbn [bindP do run];
         rewrite (ex_set_pending _ true (rs_pending rs) []); [reflexivity|exact (oc_pstat _ _ _ HOC)] |]).
       contradiction.
-    - exact (step_simple1 text bb s rs c r CH_DEFAULT ty true HOC Hr).
+    - exact (step_simple1 text bb s rs c r CH_DEFAULT ty true ltac:(nnl) HOC Hr).
   Qed.
 
   (** the tail of [dispatch_mode_default] after [lex_symbols]: the statement is pending unless the token is a predicted comment *)
@@ -104,7 +104,7 @@ Section Classes2.
       unfold advance_, emit, set_pending_stat, ret. cbn [bindP do run].
       rewrite (ex_advance (st_start s) c_semi r Hr). cbn [run]. rewrite ex_emit. cbn [run].
       rewrite (ex_set_pending _ false (rs_pending rs) []); [reflexivity|exact (oc_pstat _ _ _ HOC)].
-    - exact (step_simple1 text bb s rs c_semi r CH_DEFAULT T_SEMI false HOC Hr).
+    - exact (step_simple1 text bb s rs c_semi r CH_DEFAULT T_SEMI false ltac:(nnl) HOC Hr).
   Qed.
 
   (** '%' that is not a macro trigger *)
@@ -128,7 +128,7 @@ Section Classes2.
       unfold advance_, emit, set_pending_stat, ret. cbn [bindP do run].
       rewrite (ex_advance (st_start s) c_pct r Hr). cbn [run]. rewrite ex_emit. cbn [run].
       rewrite (ex_set_pending _ true (rs_pending rs) []); [reflexivity|exact (oc_pstat _ _ _ HOC)].
-    - exact (step_simple1 text bb s rs c_pct r CH_DEFAULT T_PERCENT true HOC Hr).
+    - exact (step_simple1 text bb s rs c_pct r CH_DEFAULT T_PERCENT true ltac:(nnl) HOC Hr).
   Qed.
 
   (** '/' that does not open a comment *)
@@ -148,7 +148,7 @@ Section Classes2.
       unfold advance_, emit, set_pending_stat, ret. cbn [bindP do run].
       rewrite (ex_advance (st_start s) c_slash r Hr). cbn [run]. rewrite ex_emit. cbn [run].
       rewrite (ex_set_pending _ true (rs_pending rs) []); [reflexivity|exact (oc_pstat _ _ _ HOC)].
-    - exact (step_simple1 text bb s rs c_slash r CH_DEFAULT T_FSLASH true HOC Hr).
+    - exact (step_simple1 text bb s rs c_slash r CH_DEFAULT T_FSLASH true ltac:(nnl) HOC Hr).
   Qed.
 
   (** symbols of one or two characters *)
@@ -197,14 +197,14 @@ Section Classes2.
     destruct r as [|c2 r'].
     - split; [lia|]. split; [apply len_ge1|]. eexists. split.
       + apply (run_symbols_tail _ CH_DEFAULT t1 PNone (rs_pending rs)); [exact (oc_pstat _ _ _ HOC)|exact Ht1].
-      + exact (step_simple1 text bb s rs c [] CH_DEFAULT t1 true HOC Hr).
-    - destruct (c2 =? second).
+      + exact (step_simple1 text bb s rs c [] CH_DEFAULT t1 true ltac:(nnl) HOC Hr).
+    - destruct (c2 =? second) eqn:E2.
       + split; [lia|]. split; [apply len_ge2|]. eexists. split.
         * apply (run_symbols_tail _ CH_DEFAULT t2 PNone (rs_pending rs)); [exact (oc_pstat _ _ _ HOC)|exact Ht2].
-        * exact (step_simple2 text bb s rs c c2 r' CH_DEFAULT t2 true HOC Hr).
+        * exact (step_simple2 text bb s rs c c2 r' CH_DEFAULT t2 true ltac:(nnl) ltac:(nnl) HOC Hr).
       + split; [lia|]. split; [apply len_ge1|]. eexists. split.
         * apply (run_symbols_tail _ CH_DEFAULT t1 PNone (rs_pending rs)); [exact (oc_pstat _ _ _ HOC)|exact Ht1].
-        * exact (step_simple1 text bb s rs c (c2 :: r') CH_DEFAULT t1 true HOC Hr).
+        * exact (step_simple1 text bb s rs c (c2 :: r') CH_DEFAULT t1 true ltac:(nnl) HOC Hr).
   Qed.
 
   (** '<' and '>' *)
@@ -278,17 +278,17 @@ Section Classes2.
     destruct r as [|c2 r'].
     - split; [lia|]. split; [apply len_ge1|]. eexists. split.
       + apply (run_symbols_tail _ CH_DEFAULT t1 PNone (rs_pending rs)); [exact (oc_pstat _ _ _ HOC)|exact Ht1].
-      + exact (step_simple1 text bb s rs c [] CH_DEFAULT t1 true HOC Hr).
-    - destruct (c2 =? a); [|destruct (c2 =? b)].
+      + exact (step_simple1 text bb s rs c [] CH_DEFAULT t1 true ltac:(nnl) HOC Hr).
+    - destruct (c2 =? a) eqn:Ea; [|destruct (c2 =? b) eqn:Eb].
       + split; [lia|]. split; [apply len_ge2|]. eexists. split.
         * apply (run_symbols_tail _ CH_DEFAULT ta PNone (rs_pending rs)); [exact (oc_pstat _ _ _ HOC)|exact Hta].
-        * exact (step_simple2 text bb s rs c c2 r' CH_DEFAULT ta true HOC Hr).
+        * exact (step_simple2 text bb s rs c c2 r' CH_DEFAULT ta true ltac:(nnl) ltac:(nnl) HOC Hr).
       + split; [lia|]. split; [apply len_ge2|]. eexists. split.
         * apply (run_symbols_tail _ CH_DEFAULT tb PNone (rs_pending rs)); [exact (oc_pstat _ _ _ HOC)|exact Htb].
-        * exact (step_simple2 text bb s rs c c2 r' CH_DEFAULT tb true HOC Hr).
+        * exact (step_simple2 text bb s rs c c2 r' CH_DEFAULT tb true ltac:(nnl) ltac:(nnl) HOC Hr).
       + split; [lia|]. split; [apply len_ge1|]. eexists. split.
         * apply (run_symbols_tail _ CH_DEFAULT t1 PNone (rs_pending rs)); [exact (oc_pstat _ _ _ HOC)|exact Ht1].
-        * exact (step_simple1 text bb s rs c (c2 :: r') CH_DEFAULT t1 true HOC Hr).
+        * exact (step_simple1 text bb s rs c (c2 :: r') CH_DEFAULT t1 true ltac:(nnl) HOC Hr).
   Qed.
 
   (** '.' that does not start a number *)
@@ -307,7 +307,7 @@ Section Classes2.
         destruct r as [|x r']; [reflexivity|exact Hx]. }
       rewrite Hnx. rewrite run_bindP. rewrite (run_one (st_start s) c_dot r T_DOT Hr).
       apply (run_symbols_tail _ CH_DEFAULT T_DOT PNone (rs_pending rs)); [exact (oc_pstat _ _ _ HOC)|reflexivity].
-    - exact (step_simple1 text bb s rs c_dot r CH_DEFAULT T_DOT true HOC Hr).
+    - exact (step_simple1 text bb s rs c_dot r CH_DEFAULT T_DOT true ltac:(nnl) HOC Hr).
   Qed.
 
   (** any other character: a CatchAll token on the hidden channel *)
@@ -371,7 +371,7 @@ Section Classes2.
       rewrite run_bindP. unfold advance_, emit_token, ret. cbn [bindP do run].
       rewrite (ex_advance (st_start s) c r Hr). cbn [run]. rewrite ex_emit.
       apply (run_symbols_tail _ CH_HIDDEN T_CatchAll PNone (rs_pending rs)); [exact (oc_pstat _ _ _ HOC)|reflexivity].
-    - exact (step_simple1 text bb s rs c r CH_HIDDEN T_CatchAll true HOC Hr).
+    - exact (step_simple1 text bb s rs c r CH_HIDDEN T_CatchAll true ltac:(nnl) HOC Hr).
   Qed.
 
 End Classes2.
